@@ -53,7 +53,7 @@ def parseTun (t : Json) : Except String ITun := do
   pure { active := ← jbool t "active", seq := ← jnat t "seq", payer := ← jnat t "payer", latest := ← parsePrices t "latest", packets := pk, lastInterval := ← jint t "lastInterval" }
 
 /-- after a DIFF: continue from the implementation's own state (static config kept) -/
-def resync (st : St) (j : Json) : Except String St := do
+def resync (_pre st : St) (j : Json) : Except String St := do
   let out ← jget j "out"
   let itun ← jarr out "tunnels"
   let mut s := st.s
